@@ -234,9 +234,13 @@ def gen_random(rng, prof=None):
         # task names need not be unique (skills are per name, targeting and dependencies per object)
         j = rng.randrange(1, n)
         tasks[j]["name"] = tasks[rng.randrange(0, j)]["name"]
-    if wps and rng.random() < p.get("id_collision", 0.04):
+    if wps and rng.random() < p.get("id_collision", 0.06):
         # user-given IDs need not be unique ACROSS classes: a team called like a workplace, a worker like a facility
-        teams[rng.randrange(len(teams))]["id"] = wps[rng.randrange(len(wps))]["id"]
+        ti_, pi_ = rng.randrange(len(teams)), rng.randrange(len(wps))
+        teams[ti_]["id"] = wps[pi_]["id"]
+        if len(teams) >= 2 and rng.random() < 0.6:
+            # ... and the team called like the workplace has nothing to do with that workplace's tasks
+            teams[ti_]["targets"] = [i for i in teams[ti_]["targets"] if i not in wps[pi_]["targets"]]
         ws_ = [w for tm in teams for w in tm["workers"]]
         fs_ = [f for wp in wps for f in wp["facilities"]]
         if ws_ and fs_ and rng.random() < 0.5:
@@ -629,7 +633,7 @@ def add_idle_parts(rng, spec):
 # G-scale: models beyond the usual small sizes (each kind stretches ONE dimension, the others stay small so
 # that a monitored run remains cheap)
 # ---------------------------------------------------------------------------------------
-SCALE_KINDS = ("long", "wide", "one_component", "ff_chain", "many_resources", "numeric_ids", "many_components")
+SCALE_KINDS = ("long", "wide", "one_component", "ff_chain", "many_resources", "numeric_ids", "many_components", "shared_ids")
 
 
 def gen_scale(rng, kind=None, kinds=(FS, SS, FF, SF)):
@@ -768,6 +772,46 @@ def gen_scale(rng, kind=None, kinds=(FS, SS, FF, SF)):
             for tm in teams:
                 for w in tm["workers"]:
                     w["fskills"] = {"f%d_0" % k: 1.0 for k in range(nw)}
+    elif kind == "shared_ids":
+        # (not a matter of size) running numbers as IDs in every class: team "1" and workplace "1", worker "2" and
+        # facility "2", task "3" and component "3" - each class is looked up in its own list
+        nt, nw = rng.randint(2, 3), rng.randint(2, 3)
+        n = rng.randint(3, 6)
+        tasks, comps = [], []
+        for i in range(n):
+            t = _simple_task(i, rng.choice([1.0, 2.0, 3.0]), [[i - 1, rng.choice(kinds)]] if i and rng.random() < 0.3 else [])
+            t["id"] = "%d" % (i + 1)
+            if rng.random() < 0.6:
+                t["need_facility"], t["component"] = True, len(comps)
+                comps.append(dict(name="c%d" % len(comps), id="%d" % (len(comps) + 1), space=1.0, children=[]))
+            tasks.append(t)
+        wps = []
+        fid = 0
+        for k in range(nw):
+            facs = []
+            for j in range(rng.randint(1, 2)):
+                fid += 1
+                facs.append(dict(name="f%d" % fid, id="%d" % fid, skills={t["name"]: 1.0 for t in tasks if t["need_facility"]},
+                                 cost=1.0, solo=False, absence=[]))
+            wps.append(dict(name="wp%d" % k, id="%d" % (k + 1), max_space=float(n), inputs=[],
+                            targets=[i for i, t in enumerate(tasks) if t["need_facility"] and (i % nw == k or rng.random() < 0.3)], facilities=facs))
+        teams = []
+        wid = 0
+        for k in range(nt):
+            workers = []
+            for j in range(rng.randint(1, 2)):
+                wid += 1
+                w = _worker(k, j, {t["name"]: 1.0 for t in tasks})
+                w["id"] = "%d" % wid
+                w["fskills"] = {f["name"]: 1.0 for wp in wps for f in wp["facilities"]}
+                workers.append(w)
+            # team k is assigned to some of the tasks only - in particular not necessarily to those of workplace k
+            teams.append(dict(name="team%d" % k, id="%d" % (k + 1), targets=sorted(i for i in range(n) if i % nt == k or rng.random() < 0.25), workers=workers))
+        for i in range(n):
+            if not any(i in tm["targets"] for tm in teams):
+                teams[0]["targets"].append(i)
+        spec = dict(tasks=tasks, comps=comps, wps=wps, teams=teams,
+                    sim=dict(rule=rng.randrange(9), absence=[], auto_flag=False, max_time=60), task_order=None)
     elif kind == "many_components":
         # sixteen and more components lying in ONE workplace at the same time, of different sizes, arriving and
         # leaving at different steps; the workplace is nearly full
